@@ -194,6 +194,9 @@ func main() {
 			if h.engineErr != "" {
 				fmt.Println("   ENGINE:", h.engineErr)
 			}
+			if h.truncated {
+				fmt.Println("   TRUNCATED: exploration stopped by maxpaths/timeout (inconclusive)")
+			}
 			seen := map[string]int{}
 			for i := range h.viols {
 				v := &h.viols[i]
